@@ -221,6 +221,12 @@ class CmpTU:
             if kind in ("cref", "mref"):
                 v = self.vec(pos)
                 f.add(c_cmp("ult", atom(("arg", 3 + pos)), v["size"]))
+            if kind == "elem":
+                # the fields of an element lie in order inside its block (C04 for the element's own pointers:
+                # they are produced by the same address chain as a reference's)
+                fl = self.fields("elem", pos)
+                for k in range(len(fl) - 1):
+                    f.add(c_cmp("ule", fl[k][0] + fl[k][2], fl[k + 1][0]))
             if kind != "elem" and self.pl.all_fixed_locator:
                 v = self.vec(pos)
                 need = ZERO
@@ -365,10 +371,17 @@ def refresh(f):
     for c in f.raw:
         if c[0] == "congruent":
             g.add_cong(c[1], c[2])
+        elif c[0] == "cmp" and c[1] == "eq":
+            g.add(c)  # an assumed equality is kept as it is (simplified under itself it would vanish)
         elif c[0] in ("cmp", "not", "and"):
-            g.add(simplify_cond(c, f))
+            c2 = simplify_cond(c, f)
+            g.add(c2 if c2 != TRUE else c)
         else:
             g.add(c)
+    for e in f.eq:
+        # equalities derived by saturation
+        if e not in g.eq and (-e) not in g.eq:
+            g.eq.append(e)
     return g
 
 
@@ -447,11 +460,12 @@ def explore(t, facts, budget=400):
             g.add(lit)
             if g.infeasible():
                 continue
-            g2 = refresh(g)
+            g.saturate()
+            g2 = refresh(g)   # earlier literals re-simplified under the equalities that have become derivable
+            g2.saturate()
             if g2.infeasible():
                 continue
-            g.saturate()
-            yield from rec(g, depth + 1)
+            yield from rec(g2, depth + 1)
 
     f0 = facts.copy()
     f0.saturate()
@@ -743,3 +757,103 @@ def rule_lex(cx, rec, rule="S4lex"):
                 rec.finding(rule, "%s-lt:memcmp-result-%s" % ("vector" if ka == "vec" else "element", nm),
                             "%s: with r = memcmp over the common prefix, case %s must give %d but gives %s" % (fn, nm, want, show_case(case)),
                             config=tu.cfg, witness=fn, where=tu.where(sm, e))
+
+
+def rule_support(cx, rec, rule="K4"):
+    """the result of a comparison does not depend on spare capacity, footprint or allocator: none of the
+    bookkeeping fields that only those observers read occurs in the result formula"""
+    tu = cx.tu
+
+    def atoms_of(t, acc):
+        if isinstance(t, Lin):
+            walk_atoms(t, lambda a: acc.add(a) if a[0] == "mem" else None)
+        return acc
+
+    def forbidden(kind, pos):
+        bad, ok = set(), set()
+        if kind == "elem":
+            sm = tu.S("x_obs_elem_book")
+            o = tu.arg("x_obs_elem_book", "o")
+            m = argmap([(0, pos)])
+            for k in (0, 1):
+                t = sm.final.get((o + 8 * k, 8))
+                if t is not None:
+                    atoms_of(deep_subst(t, m), bad)
+            for (a, ln, nb) in cx.fields("elem", pos):
+                atoms_of(a, ok)
+                atoms_of(ln, ok)
+        else:
+            v = cx.vec(pos)
+            for f in ("cap",):
+                atoms_of(v[f], bad)
+            m = argmap([(0, pos)])
+            for f in ("mc", "id"):
+                atoms_of(deep_subst(tu.obs("x_obs_vec", "o", f), m), bad)
+            for f in ("size", "begin", "end", "step"):
+                atoms_of(v[f], ok)
+            for i in range(cx.pl.nfixed):
+                atoms_of(v["fs%d" % i], ok)
+        # only loads from the operand object itself (not from element storage) are bookkeeping
+        base = atom(("arg", pos))
+        return {a for a in bad - ok if (a[1] - base).const() is not None}
+
+    for ka, kb in cx.pairs:
+        fb = forbidden(ka, 0) | forbidden(kb, 1)
+        for op in ("eq", "ne", "lt", "le", "gt", "ge"):
+            fn = cx.fname(ka, kb, op)
+            r = cx.ret(ka, kb, op)
+            used = atoms_of(r, set())
+            hit = used & fb
+            rec.ob(rule, not hit, {"config": tu.cfg, "witness": fn, "obligation": "result independent of capacity / footprint / allocator fields", "fields": len(fb)} if op == "eq" else None)
+            if hit:
+                rec.finding(rule, "%s-%s:depends-on-bookkeeping" % ("vector" if ka == "vec" else "element", "eq" if op in ("eq", "ne") else "lt"),
+                            "%s: the result depends on %s, a field that only capacity() / memory_consumption() / get_allocator() / the storage size read" % (
+                                fn, ", ".join(sorted(show(atom(a)) for a in hit))[:200]), config=tu.cfg, witness=fn)
+
+
+def rule_asymmetric(cx, rec, rule="S2asym"):
+    """a < b and b < a are never both true (loop-free formulas over built-in value types: the comparisons of
+    loaded values are linear facts, memcmp results are antisymmetric sign atoms)"""
+    tu = cx.tu
+    if not cx.builtin:
+        return
+    for ka, kb in cx.pairs:
+        fn = cx.fname(ka, kb, "lt")
+        ab = cx.ret(ka, kb, "lt")
+        ba = deep_subst(cx.ret(kb, ka, "lt"), SWAP)
+        if has_exit_bits(ab) or has_exit_bits(ba):
+            rec.count("undecided")
+            continue
+        base = cx.base_facts(ka, kb)
+        # two byte comparisons of the same ranges with different length terms are related in a way the sign
+        # atoms do not express (one is a prefix of the other): not decided here
+        groups = {}
+
+        def grp(a):
+            if a[0] == "purecall" and a[1] == "memcmp":
+                groups.setdefault((a[2], a[3]), set()).add(a[4])
+        walk_atoms(ab + ba, grp)
+        if any(len(v) > 1 for v in groups.values()):
+            rec.count("undecided")
+            continue
+        bad, und = None, None
+        try:
+            for f, v in explore(ab + ba, base, 600):
+                if v.is_const():
+                    if v.c >= 2:
+                        bad = (f, v)
+                        break
+                    continue
+                if f.nonneg(ONE - v):
+                    continue
+                und = (f, v)
+        except Budget:
+            und = (base, ab + ba)
+        if bad is None and und is not None:
+            rec.count("undecided")
+            rec.note("%s %s %s: undecided (%s)" % (tu.cfg, rule, fn, show_case(und)[:300]))
+            continue
+        rec.ob(rule, bad is None, {"config": tu.cfg, "witness": fn, "obligation": "a < b and b < a never both hold"})
+        if bad is not None:
+            rec.finding(rule, "%s-lt:both-directions" % ("vector" if ka == "vec" else "element"),
+                        "%s: a < b and b < a can both be true: %s" % (fn, show_case(bad)), config=tu.cfg, witness=fn)
